@@ -5,7 +5,9 @@ import (
 	"fmt"
 	"os"
 	"path/filepath"
+	"reflect"
 	"sort"
+	"strconv"
 	"strings"
 	"time"
 
@@ -115,7 +117,22 @@ func reencodeStep(r *report, w *world, in *c07Input, f *fit.File, gen int, useMo
 			tag = "fixpoint"
 		}
 		if csd {
-			tag = "csd_accumulator"
+			// the recorded finding explains differences in the accumulated Distance and in EnhancedSpeed (derived
+			// from the compressed speed one pass late) of records carrying compressed_speed_distance, nothing else
+			if r2, err := w.d.ask(fmt.Sprintf("c07 %s %s", maskAccumTextX(before, true), maskAccumTextX(impl.Files[0], true))); err == nil && kv(r2)["eq"] == "1" {
+				tag = "csd_accumulator"
+			} else if hasShortCsd(before) || hasShortCsd(impl.Files[0]) {
+				// a compressed_speed_distance array shorter than 3 bytes: mask what its padded re-encoding changes
+				// in those records only (position-wise on both generations)
+				a, b := maskShortCsdPair(before, impl.Files[0])
+				if r3, err := w.d.ask(fmt.Sprintf("c07 %s %s", a, b)); err == nil && kv(r3)["eq"] == "1" {
+					tag = "csd_array_length"
+				} else {
+					csd = false
+				}
+			} else {
+				csd = false
+			}
 		}
 		r.specFail(tag, fmt.Sprintf("generation %d and %d differ at slot.message.field %s", gen, gen+1, m["diff"]),
 			in.replay(map[string]interface{}{"generation": gen, "diff": m["diff"], "file": trunc(before, 20000), "decoded": trunc(impl.Files[0], 20000)}))
@@ -321,4 +338,95 @@ func runC07(args []string) int {
 		}
 	}
 	return r.finish()
+}
+
+// maskShortCsdPair masks, in both generations, Distance/Speed/EnhancedSpeed/compressed_speed_distance of the
+// record messages (matched by position) whose compressed_speed_distance array is short in either generation.
+func maskShortCsdPair(a, b string) (string, string) {
+	tag := strconv.Itoa(int(fit.MesgNumRecord)) + "["
+	mask := func(x string, which map[int]bool) string {
+		n := 0
+		var out strings.Builder
+		rest := x
+		for {
+			k := strings.Index(rest, tag)
+			for k > 0 && rest[k-1] != ':' && rest[k-1] != '&' {
+				m := strings.Index(rest[k+1:], tag)
+				if m < 0 {
+					k = -1
+					break
+				}
+				k += 1 + m
+			}
+			if k < 0 {
+				out.WriteString(rest)
+				return out.String()
+			}
+			end := strings.IndexByte(rest[k:], ']')
+			if end < 0 {
+				out.WriteString(rest)
+				return out.String()
+			}
+			msg := rest[k : k+end+1]
+			if which[n] {
+				msg = maskAccumTextL(msg[:0]+":"+msg, true, true)[1:]
+				// force the masks also when this generation's array is already padded to 3 bytes
+				msg = forceCsdMask(msg)
+			}
+			out.WriteString(rest[:k])
+			out.WriteString(msg)
+			rest = rest[k+end+1:]
+			n++
+		}
+	}
+	short := map[int]bool{}
+	for _, x := range []string{a, b} {
+		n := 0
+		rest := x
+		for {
+			k := strings.Index(rest, tag)
+			for k > 0 && rest[k-1] != ':' && rest[k-1] != '&' {
+				m := strings.Index(rest[k+1:], tag)
+				if m < 0 {
+					k = -1
+					break
+				}
+				k += 1 + m
+			}
+			if k < 0 {
+				break
+			}
+			end := strings.IndexByte(rest[k:], ']')
+			if end < 0 {
+				break
+			}
+			if hasShortCsd(":" + rest[k:k+end+1]) {
+				short[n] = true
+			}
+			rest = rest[k+end+1:]
+			n++
+		}
+	}
+	return mask(a, short), mask(b, short)
+}
+
+func forceCsdMask(msg string) string {
+	rt := reflect.TypeOf(fit.RecordMsg{})
+	tag := strconv.Itoa(int(fit.MesgNumRecord)) + "["
+	if !strings.HasPrefix(msg, tag) || !strings.HasSuffix(msg, "]") {
+		return msg
+	}
+	fs := strings.Split(msg[len(tag):len(msg)-1], ";")
+	if len(fs) != rt.NumField() {
+		return msg
+	}
+	for i := 0; i < rt.NumField(); i++ {
+		switch rt.Field(i).Name {
+		case "Distance", "Speed", "EnhancedSpeed":
+			fs[i] = "u0"
+		case "CompressedSpeedDistance":
+			fs[i] = "n"
+		}
+	}
+	return tag + strings.Join(fs, ";") + "]"
 }
